@@ -382,6 +382,9 @@ func (st *c08State) aggFormula(r *Run, tree *c08Node) {
 	case !predicted:
 		sig += ":unpredicted"
 	}
+	if st.wide && len(st.defs) == 0 && strings.Contains(sig, ":unexplained") {
+		sig = "ref:formula-precedent"
+	}
 	if len(st.defs) > 0 && strings.HasSuffix(sig, ":unexplained") {
 		sig = "defname:resolution"
 		leafDesc = "on " + st.main() + ", names " + st.showDefs() + "; " + leafDesc
